@@ -168,7 +168,24 @@ def r3_is_feasible(ctx):
         return
     R = Resolver(b)
     true_sets, false_sets, other = set(), set(), []
-    for v, lits, bb in phi_table(b, R, 0):
+    from ..mir import value_table
+    rows = []
+    for v, lits, bb in value_table(b, R, 0):
+        neg = False
+        while v[0] == 'un' and v[1] == 'Not':
+            neg = not neg
+            v = v[2]
+        if v[0] == 'phi' and len(v) > 2:
+            # `!matches!(status, ..)`: the boolean is materialised in a temporary first
+            for v2, lits2, bb2 in value_table(b, R, v[1]):
+                if v2 in (('const', True), ('const', False)):
+                    v2 = ('const', v2[1] != neg)
+                rows.append((v2, list(lits2) + [l for l in lits if l not in lits2], bb2))
+        else:
+            if neg and v in (('const', True), ('const', False)):
+                v = ('const', not v[1])
+            rows.append((v, lits, bb))
+    for v, lits, bb in rows:
         st = [l for l in lits if l[0] == 'is' and is_call(l[1], 'AffFuncBase::status') and l[1][2][0] == ('param', 'self')]
         if v == ('const', True) and st:
             true_sets |= set(st[0][2])
